@@ -60,6 +60,10 @@ def monitor(cfg, op, o):
     q = ssp.qargs(op)
     kind = q[0]
     now, old = o["now"], o["oldest"]
+    if "ok2" in o and (o["ok"], o["res"]) != (o["ok2"], o["res2"]):
+        out.append(("view-differs-through-second-instance",
+                    f"{op}: asked on the pair itself: {'ok' if o['ok'] else o['msg']} {o['res']}; the same view executed by "
+                    f"another pair instance with the pair's address as argument: {'ok' if o['ok2'] else o['msg2']} {o['res2']}"))
     if kind == "QObs":
         x = q[1]
         if old is None or x < old or x > now:
